@@ -120,6 +120,17 @@ Commit(S, op, res) ==
   /\ nops' = nops + 1
   /\ hist' = Append(hist, <<op, res, SubSeq(S.sent, Len(sent) + 1, Len(S.sent))>>)
 
+(* ASSUMPTION (device and id limit): when a local id is handed out again, no
+   message the device addressed to the stream that had it before is still in
+   flight, and the device sends nothing more to that earlier stream.  ADB
+   cannot tell the two incarnations apart while the new one has no remote id
+   yet; with the production limit 2^31 opens - each of which reads the wire -
+   lie between the two.  Without it TLC finds histories (Limit = 3, five
+   operations) in which a late WRTE/OKAY for the closed stream is taken for the
+   new one. *)
+NoStaleInFlight(lid) == \A i \in 1..Len(wire) : wire[i].a1 # lid
+Current(h) == ~\E h2 \in (h + 1)..Len(st) : st[h2].lid = st[h].lid
+
 \* api: open_stream() returned a stream object for this handle (the caller can use it)
 NewStream(lid) == [lid |-> lid, rid |-> 0, state |-> "pending", inmap |-> TRUE, q |-> <<>>,
                    buf |-> <<>>, exp |-> TRUE, api |-> FALSE]
@@ -128,6 +139,7 @@ NewStream(lid) == [lid |-> lid, rid |-> 0, state |-> "pending", inmap |-> TRUE, 
    reply means the service is unavailable and yields no stream)" *)
 Open(reply) ==
   /\ nops < MaxOps /\ Len(st) < MaxStreams
+  /\ NoStaleInFlight(Alloc(S0))
   /\ LET lid == Alloc(S0) IN
      IF lid = 0
      THEN \* the allocator has already advanced _last_id_used when it gives up
@@ -193,12 +205,12 @@ DevSend(m, note) ==
   /\ hist' = Append(hist, <<<<"dev", m.cmd, note, m.d>>, "", <<>>>>)
   /\ UNCHANGED <<st, sent, last, nops, hostr>>
 
-DevWrte(h, d) == /\ h \in 1..Len(st) /\ st[h].rid # 0
+DevWrte(h, d) == /\ h \in 1..Len(st) /\ st[h].rid # 0 /\ Current(h)
                  /\ DevSend(M("WRTE", st[h].rid, st[h].lid, d), h)
                  /\ devw' = [devw EXCEPT ![h] = Append(@, d)]
-DevClse(h) == /\ h \in 1..Len(st) /\ st[h].rid # 0
+DevClse(h) == /\ h \in 1..Len(st) /\ st[h].rid # 0 /\ Current(h)
               /\ DevSend(M("CLSE", st[h].rid, st[h].lid, ""), h) /\ UNCHANGED devw
-DevOkay(h) == /\ h \in 1..Len(st) /\ st[h].rid # 0      \* unsolicited OKAY
+DevOkay(h) == /\ h \in 1..Len(st) /\ st[h].rid # 0 /\ Current(h)      \* unsolicited OKAY
               /\ DevSend(M("OKAY", st[h].rid, st[h].lid, ""), h) /\ UNCHANGED devw
 DevUnknown == DevSend(M("WRTE", 999, Limit + 5, "a"), 0) /\ UNCHANGED devw
 DevIllegal(c) == DevSend(M(c, 0, 0, ""), 0) /\ UNCHANGED devw
